@@ -85,6 +85,7 @@ static bool g_parked = false;      // loop thread is inside the interposed epoll
 static bool g_go = false;          // permission for one iteration
 static int g_gate_blocked = 0;     // id of the gate handler the loop thread is blocked in (0 = none)
 static bool g_gate_open = false;
+static bool g_gates_off = false;    // teardown: gate handlers no longer block
 static std::vector<std::string> g_events;
 static unsigned long g_epoll_parks = 0;
 
@@ -156,6 +157,7 @@ struct HInfo
 struct S
 {
   std::unique_ptr<TimerService> svc;
+  TimerService* raw = nullptr;   // stays valid while the destructor runs (handlers of the exit path may still call cancel)
   std::vector<std::shared_ptr<HInfo>> hs;
 
   std::function<void()> handler(std::shared_ptr<HInfo> h)
@@ -168,15 +170,18 @@ struct S
       if (h->kind == 'g')
       {
         std::unique_lock<std::mutex> lk(g_m);
-        g_gate_blocked = (int)h->id;
-        g_gate_open = false;
-        g_cv.notify_all();
-        g_cv.wait(lk, [] { return g_gate_open; });
-        g_gate_blocked = 0;
+        if (!g_gates_off)
+        {
+          g_gate_blocked = (int)h->id;
+          g_gate_open = false;
+          g_cv.notify_all();
+          g_cv.wait(lk, [] { return g_gate_open || g_gates_off; });
+          g_gate_blocked = 0;
+        }
       }
       else if (h->kind == 'x')
       {
-        bool r = svc->cancel(h->arg);
+        bool r = raw->cancel(h->arg);
         std::lock_guard<std::mutex> lk(g_m);
         g_events.push_back("c" + std::to_string(h->arg) + "=" + (r ? "1" : "0"));
       }
@@ -191,17 +196,20 @@ struct S
     {
       std::lock_guard<std::mutex> lk(g_m);
       g_step = false;       // free-run: the loop thread uses the real epoll_wait from now on
+      g_gates_off = true;
       g_gate_open = true;
       g_cv.notify_all();
     }
     for (auto& h : hs) if (h->id) svc->cancel(h->id);   // nothing live: stop()'s internal drain completes at once
-    svc.reset();
+    delete svc.release();
+    raw = nullptr;
     hs.clear();
     std::lock_guard<std::mutex> lk(g_m);
     g_events.clear();
     g_gate_blocked = 0;
     g_parked = false;
     g_go = false;
+    g_gates_off = false;
   }
 
   void reset(std::size_t maxTimers, std::size_t maxPeriodic, long long maxTimeoutMs)
@@ -219,6 +227,7 @@ struct S
       g_epfd = -2;     // learn the fd below; until then nothing matches (the first epoll_wait passes through and returns on our poke)
     }
     svc = std::make_unique<TimerService>(cfg);
+    raw = svc.get();
     {
       std::lock_guard<std::mutex> lk(g_m);
       g_epfd = svc->_epollFd;
@@ -361,12 +370,8 @@ int main()
         {
           std::lock_guard<std::mutex> lk(g_m);
           g_gate_open = true;
+          g_gate_blocked = 0;     // the handler leaves the gate; quiescent again = parked, or blocked in the next gate
           g_cv.notify_all();
-        }
-        {
-          // wait until the loop thread has left this gate and is quiescent again (parked, or blocked in the next gate)
-          std::unique_lock<std::mutex> lk(g_m);
-          g_cv.wait(lk, [] { return !g_gate_open || g_parked; });
         }
         waitQuiescent();
         return "ev=" + takeEvents() + " " + st.state();
